@@ -4,6 +4,9 @@
 \* pseudo-random argument tuple per operation kind and step.  Run with -deadlock.
 \* Every behaviour of MaxOps operations is printed (SimPrint) and replayed on
 \* the real store.
+\* Above = {}: no index rank sorts after the "stablestore-" keys in this graph; checks/c09.py
+\* derives the variants Above = {1,3,5}, {5}, {3,5} of the tiny config at run time (thorough tier)
+\* and executes every tour/behaviour under concretisations below, above and across that boundary.
 SPECIFICATION SimSpec
 CONSTANTS
     Idx <- SimIdx
@@ -16,6 +19,7 @@ CONSTANTS
     ProtoChoices <- NoChoice
     RangeChoices <- NoChoice
     EncChoices <- Encs
+    Above = {}
     KeepHist = TRUE
     MaxOps = 40
 INVARIANTS TypeOK ObsConsistent ConvDiscipline SimPrint
